@@ -180,6 +180,7 @@ def run(eng, run):
     run.attempt(check_all_attempted, eng, run, race, tc)
     run.attempt(check_every_address_accounted, eng, run, impl)
     run.attempt(check_late_failures, eng, run)
+    run.attempt(check_option_setters_cannot_fail_the_connection, eng, run)
     run.attempt(check_entry_lists, eng, run, resolver)
     run.attempt(check_registered, eng, run)
     run.attempt(check_winner_handoff, eng, run)
@@ -287,6 +288,46 @@ def check_every_address_accounted(eng, run, impl):
     run.ob("C19.all", f"{impl.short}:every-iteration-returns-or-records-an-error", not silent, continues=len(out.cont), error_list=ev)
 
 
+def check_option_setters_cannot_fail_the_connection(eng, run):
+    """after the race the async TCP client tunes the winner (TCP_NODELAY, SO_KEEPALIVE) while it is the only owner of the connected
+    transport and nothing around closes it: these best-effort calls swallow every OSError (`contextlib.suppress(OSError)` or a handler
+    that never re-raises).  A handler that lets 'unexpected' errnos through reports the failure but leaves the connection open."""
+    fn = eng.db.cls("clients.async_tcp.AsyncTCPNetworkClient").methods.get("__create_socket")
+    if fn is None:
+        raise AnalysisError("anchor vanished: AsyncTCPNetworkClient.__create_socket")
+    pm = {}
+    for p_ in ast.walk(fn.node):
+        for c_ in ast.iter_child_nodes(p_):
+            pm[c_] = p_
+    loops = {}
+    # the setters, called directly or through a loop variable that ranges over them (`for set_option in (set_tcp_nodelay, ...)`)
+    setter_names = {"set_tcp_nodelay", "set_tcp_keepalive", "setsockopt"}
+    for lp in own_nodes(fn.node):
+        if isinstance(lp, ast.For) and isinstance(lp.target, ast.Name) and isinstance(lp.iter, (ast.Tuple, ast.List)) and any((dotted(e) or "").split(".")[-1] in setter_names for e in lp.iter.elts):
+            loops[lp.target.id] = lp
+    sites = [c for c in own_nodes(fn.node) if isinstance(c, ast.Call) and (((dotted(c.func) or "").split(".")[-1] in setter_names) or (isinstance(c.func, ast.Name) and c.func.id in loops))]
+    if not sites:
+        raise AnalysisError("anchor vanished: socket option setters in AsyncTCPNetworkClient.__create_socket")
+    bad = []
+    for c in sites:
+        x, safe = c, False
+        while x in pm and not safe:
+            x = pm[x]
+            if isinstance(x, (ast.With, ast.AsyncWith)) and any(isinstance(it.context_expr, ast.Call) and (dotted(it.context_expr.func) or "").endswith("suppress")
+                                                                and any((dotted(a) or "").split(".")[-1] in ("OSError", "Exception") for a in it.context_expr.args) for it in x.items):
+                safe = True
+            if isinstance(x, ast.Try) and any(c is y for b in x.body for y in ast.walk(b)):
+                for h in x.handlers:
+                    if h.type is not None and (dotted(h.type) or "").split(".")[-1] in ("OSError", "Exception") and not any(isinstance(r, ast.Raise) for b in h.body for r in ast.walk(b)):
+                        safe = True
+        if not safe:
+            bad.append(c)
+    for c in bad[:1]:
+        run.finding("C19.own", fn, _stmt_at(fn, c.lineno), f"an OSError raised by `{ast.unparse(c)[:40]}` can leave __create_socket() after the connection was established: the function is the only "
+                    "owner of the connected transport and nothing closes it - wait_connected() reports the error, the socket stays open")
+    run.ob("C19.own", f"{fn.short}:option-setters-swallow-OSError", not bad, sites=len(sites))
+
+
 def check_late_failures(eng, run):
     """two ways a connection attempt / a finished race can fail *late*, where nobody owns the socket any more:
     (a) the async TCP client hands the race winner to AsyncStreamEndpoint(...), whose constructor validates `max_recv_size`: the client's
@@ -362,6 +403,24 @@ def check_winner_handoff(eng, run):
         if protected:
             continue
         n += 1
+        # ... in create_tcp_connection() itself: from the moment the race hands the winner back to the hand-off call, nothing is called on
+        # (or with) the socket outside a try block that closes it - a `getpeername()` on a connection the peer has already reset raises
+        # ENOTCONN and the winner is neither returned nor closed
+        win = next((a for a in own_nodes(ctc.node) if isinstance(a, (ast.Assign, ast.AnnAssign)) and isinstance(getattr(a, "value", None), ast.Await) and isinstance(a.value.value, ast.Call)
+                    and "create_" in ast.unparse(a.value.value.func) and "connection" in ast.unparse(a.value.value.func)), None)
+        wname = None
+        if win is not None:
+            t0 = (win.targets[0] if isinstance(win, ast.Assign) else win.target)
+            wname = t0.id if isinstance(t0, ast.Name) else None
+        if wname is not None:
+            between = [c for c in own_nodes(ctc.node) if isinstance(c, ast.Call) and getattr(win, 'end_lineno', win.lineno) < c.lineno and c is not call and c.lineno <= call.lineno
+                       and ((isinstance(c.func, ast.Attribute) and dotted(c.func.value) == wname and c.func.attr != "close") or any(isinstance(a, ast.Name) and a.id == wname for a in c.args))]
+            guarded = lambda c: any(isinstance(t, ast.Try) and any(c in list(ast.walk(b)) for b in t.body) and any(any(isinstance(x, ast.Call) and isinstance(x.func, ast.Attribute) and x.func.attr == "close" and dotted(x.func.value) == wname for hb in h.body for x in ast.walk(hb)) for h in t.handlers) for t in own_nodes(ctc.node))  # noqa: E731
+            loose = [c for c in between if not guarded(c)]
+            for c in loose[:1]:
+                run.finding("C19.own", ctc, _stmt_at(ctc, c.lineno), f"`{ast.unparse(c)[:50]}` runs on the race winner between the end of the race and the hand-off to wrap_stream_socket(), outside any block that "
+                            "closes it: if it raises (the peer reset the connection: ENOTCONN) the connected socket is neither returned nor closed")
+            run.ob("C19.own", f"{ci.name}.create_tcp_connection:nothing-failable-on-the-winner-before-the-hand-off", not loose, winner=wname)
         sock = wss.params()[1].arg if len(wss.params()) > 1 else "socket"
         bad = []
         for st in wss.node.body:
